@@ -1,7 +1,8 @@
 #!/bin/bash
 # full_pass.sh [tier] : every registered check once on the current tree, sequentially; summary on stdout, logs in /tmp/full_pass/
-TIER="${1:-quick}"; mkdir -p /tmp/full_pass; cd /verif
+TIER="${1:-quick}"; HERE="$(cd "$(dirname "$0")/.." && pwd)"; LOGS="${FULL_PASS_LOGS:-/tmp/full_pass}"; mkdir -p "$LOGS"; cd "$HERE"
+[ -f coq/Makefile ] || make setup > "$LOGS/setup.log" 2>&1
 for P in $(/venv/bin/python -c "import json; print(' '.join(c['property_id'] for c in json.load(open('MANIFEST.json'))['checks']))"); do
-  s=$(date +%s); timeout 7200 ./check $P --tier $TIER > /tmp/full_pass/$P.log 2>&1; rc=$?
-  echo "$P rc=$rc $(( $(date +%s) - s ))s $(grep -E 'VIOLATION|KNOWN-FINDING' /tmp/full_pass/$P.log | head -3 | tr '\n' ' ')"
+  s=$(date +%s); timeout 7200 ./check $P --tier $TIER > "$LOGS"/$P.log 2>&1; rc=$?
+  echo "$P rc=$rc $(( $(date +%s) - s ))s $(grep -E 'VIOLATION|KNOWN-FINDING' "$LOGS"/$P.log | head -3 | tr '\n' ' ')"
 done
